@@ -292,6 +292,33 @@ func EvalPair(rn *Runner, cur, prev *Compiled, checkExcept bool) *PairEval {
 	return pe
 }
 
+// EvalPairExcl runs every version x category on the pair WITH the client's exclude-imports option
+// (all rules, no except); the `pairx` protocol line asks the model for the same 12 sets after its
+// exclude-imports filter.  On a tree without C03-package-last-element.diff no protocol line is
+// produced (In == ""): the import-aware model exists for the fixed dispatch only.
+func EvalPairExcl(rn *Runner, cur, prev *Compiled, idx PathIndex) *PairEval {
+	pe := &PairEval{Sets: map[string][]Ann{}, Idx: idx}
+	if TreeHasPackageFix() {
+		pe.In = "pairx\t" + cur.Encode() + "\t" + prev.Encode()
+	}
+	var parts []string
+	for _, v := range Versions {
+		for _, cat := range Categories {
+			anns, err := rn.RunX(v.V, []string{cat}, nil, cur, prev, idx, true)
+			if err != nil {
+				pe.Err, pe.ErrAt = err, "exclude-imports "+setKey(v.Name, cat)
+				return pe
+			}
+			pe.Sets[setKey(v.Name, cat)] = anns
+			pe.Total += len(anns)
+			parts = append(parts, "x:"+setKey(v.Name, cat)+"="+RenderSet(filterModelled(anns)))
+		}
+	}
+	// constant prefix: the tagged rules of the model, projected, give the untagged ones
+	pe.Out = "tag=1|" + strings.Join(parts, "|")
+	return pe
+}
+
 // RulesLine runs each rule id alone (v2 config) and returns the `rules` protocol line, the
 // answer and the annotations per rule.
 func RulesLine(rn *Runner, ids []string, cur, prev *Compiled, idx PathIndex) (in, out string, sets map[string][]Ann, err error) {
@@ -306,6 +333,84 @@ func RulesLine(rn *Runner, ids []string, cur, prev *Compiled, idx PathIndex) (in
 		parts = append(parts, id+"="+RenderSet(anns))
 	}
 	return RulesOp() + "\t" + strings.Join(ids, ",") + "\t" + cur.Encode() + "\t" + prev.Encode(), strings.Join(parts, "|"), sets, nil
+}
+
+// RulesLineExcl is RulesLine with the exclude-imports option (`rulesx`; in == "" on a tree
+// without the package fix, see EvalPairExcl).
+func RulesLineExcl(rn *Runner, ids []string, cur, prev *Compiled, idx PathIndex) (in, out string, sets map[string][]Ann, err error) {
+	sets = map[string][]Ann{}
+	var parts []string
+	for _, id := range ids {
+		anns, e := rn.RunX(Versions[2].V, []string{id}, nil, cur, prev, idx, true)
+		if e != nil {
+			return "", "", nil, e
+		}
+		sets[id] = anns
+		parts = append(parts, "x:"+id+"="+RenderSet(anns))
+	}
+	if TreeHasPackageFix() {
+		in = "rulesx\t" + strings.Join(ids, ",") + "\t" + cur.Encode() + "\t" + prev.Encode()
+	}
+	return in, strings.Join(parts, "|"), sets, nil
+}
+
+// PickImportSpecs draws how the two sides of a comparison get their import files.  flavour:
+// "both" (the same targets on both sides: what `buf breaking --path` does), "cur-only" (every
+// previous file is a target), "prev-only", "differ" (independent target sets; only with the
+// importer file, so that no file goes missing on either side).  `must` lists files that should
+// be IMPORTS where the flavour allows (the edited file), never targets.  importers: files with
+// >= 1 import of their own (candidates of the "natural" flavour, which adds no importer file).
+func PickImportSpecs(r *hx.Rand, files []string, must []string, importers []string) (cur, prev ImportSpec, flavour string) {
+	mode := r.Intn(NumTargetModes)
+	if len(importers) > 0 && r.Chance(1, 3) {
+		// no importer file: the targets are files that import others (`--path a.proto`, a.proto
+		// imports b.proto); unreachable files are not in the image on either side
+		var t []string
+		for _, f := range importers {
+			if r.Bool() {
+				t = append(t, f)
+			}
+		}
+		if len(t) == 0 {
+			t = []string{hx.Pick(r, importers)}
+		}
+		spec := ImportSpec{Mode: mode, Targets: t}
+		return spec, spec, "natural"
+	}
+	isMust := map[string]bool{}
+	for _, m := range must {
+		isMust[m] = true
+	}
+	pick := func() []string {
+		var out []string
+		for _, f := range files {
+			if !isMust[f] && r.Chance(1, 3) {
+				out = append(out, f)
+			}
+		}
+		return out
+	}
+	t := pick()
+	cur = ImportSpec{Mode: mode, Targets: t, Importer: true}
+	prev = ImportSpec{Mode: mode, Targets: t, Importer: true}
+	all := append([]string(nil), files...)
+	switch r.Intn(6) {
+	case 0, 1, 2:
+		flavour = "both"
+	case 3:
+		flavour = "cur-only"
+		prev.Targets = all
+	case 4:
+		flavour = "prev-only"
+		cur.Targets = all
+	default:
+		flavour = "differ"
+		prev.Targets = pick()
+		if r.Bool() {
+			prev.Mode = r.Intn(NumTargetModes)
+		}
+	}
+	return cur, prev, flavour
 }
 
 // RuleCats caches BreakingRuleIDs per version name.
